@@ -139,7 +139,32 @@ type bfStep struct {
 }
 
 // runBf executes steps on real filters; variant 1 uses the ...String constructors.
+// bfKeysFor: variants 0 and 1 use the short colliding keys, variants 2 and 3 the same two
+// constructor families with LONG keys (63, 64, 65, 127, 128 and 200 bytes: lengths around the
+// word sizes an implementation may index by length)
+func bfKeysFor(variant int) (map[string][]byte, [][]byte) {
+	if variant < 2 {
+		return bfKeys, bfProbes
+	}
+	if bfLong == nil {
+		bfLong = map[string][]byte{}
+		for i, l := range []int{63, 64, 65, 127, 128, 200} {
+			bfLong[fmt.Sprintf("k%d", i+1)] = []byte(strings.Repeat(fmt.Sprintf("key%d-", i+1), l)[:l])
+		}
+		for _, l := range []int{62, 63, 64, 65, 66, 127, 128, 129, 200, 256} {
+			bfLongProbes = append(bfLongProbes, []byte(strings.Repeat("probe-", l)[:l]))
+		}
+	}
+	return bfLong, bfLongProbes
+}
+
+var (
+	bfLong       map[string][]byte
+	bfLongProbes [][]byte
+)
+
 func runBf(steps []bfStep, variant int) (fs []util.BytesFilter, err error) {
+	bfKeys, _ := bfKeysFor(variant)
 	defer func() {
 		if r := recover(); r != nil {
 			err = fmt.Errorf("panic: %v", r)
@@ -163,7 +188,7 @@ func runBf(steps []bfStep, variant int) (fs []util.BytesFilter, err error) {
 	for _, s := range steps {
 		switch s.Op {
 		case "New":
-			if variant == 1 {
+			if variant%2 == 1 {
 				fs = append(fs, util.NewBytesFilterString(join(s.Ks)))
 			} else {
 				fs = append(fs, util.NewBytesFilter(kb(s.Ks)...))
@@ -171,7 +196,7 @@ func runBf(steps []bfStep, variant int) (fs []util.BytesFilter, err error) {
 		case "Add":
 			fs[s.F-1].Add(bfKeys[s.Ks[0]])
 		case "Extend":
-			if variant == 1 {
+			if variant%2 == 1 {
 				fs = append(fs, fs[s.F-1].ExtendString(join(s.Ks)))
 			} else {
 				fs = append(fs, fs[s.F-1].Extend(kb(s.Ks)...))
@@ -182,6 +207,11 @@ func runBf(steps []bfStep, variant int) (fs []util.BytesFilter, err error) {
 }
 
 func judgeBf(fs []util.BytesFilter, err error, want [][]string) (bool, string) {
+	return judgeBfV(fs, err, want, 0)
+}
+
+func judgeBfV(fs []util.BytesFilter, err error, want [][]string, variant int) (bool, string) {
+	bfKeys, bfProbes := bfKeysFor(variant)
 	if err != nil {
 		return false, err.Error()
 	}
@@ -225,7 +255,7 @@ func replayC19(c *Ctx, raw json.RawMessage) (bool, string) {
 	}
 	if r.Kind == "filter" {
 		fs, err := runBf(r.Steps, r.Variant)
-		ok, d := judgeBf(fs, err, r.Want)
+		ok, d := judgeBfV(fs, err, r.Want, r.Variant)
 		return !ok, fmt.Sprintf("steps %v (variant %d): %s", r.Steps, r.Variant, d)
 	}
 	p := makePair(r.Fn, intsToBytes(r.In), intsToBytes(r.Var))
@@ -297,7 +327,7 @@ func runC19(c *Ctx) {
 	}
 	report := func(steps []bfStep, variant int, want [][]string) {
 		fs, err := runBf(steps, variant)
-		if ok, d := judgeBf(fs, err, want); !ok {
+		if ok, d := judgeBfV(fs, err, want, variant); !ok {
 			last := steps[len(steps)-1]
 			c.Report(Violation{Signature: fmt.Sprintf("C19/BytesFilter/%s/filters-%d", last.Op, len(want)),
 				Detail: fmt.Sprintf("steps %v (variant %d): %s", steps, variant, d),
@@ -312,10 +342,10 @@ func runC19(c *Ctx) {
 			infra("filter state without path %s", setsKey(e.From))
 		}
 		steps := append(append([]bfStep{}, path...), bfStep{e.Op, e.F, e.Ks})
-		for variant := 0; variant < 2; variant++ {
+		for variant := 0; variant < 4; variant++ {
 			fs, err := runBf(steps, variant)
 			nEval++
-			if ok, _ := judgeBf(fs, err, e.To); !ok {
+			if ok, _ := judgeBfV(fs, err, e.To, variant); !ok {
 				report(steps, variant, e.To)
 			}
 		}
